@@ -30,6 +30,9 @@ NETS = {
     "two_steps": dict(pools={"A": 2, "B": 2, "C": 2}, inner=({"A": -1, "B": 1}, ["A"]), inner2=({"B": -1, "C": 1}, ["B"], (1, 0)), inn=["A"], out=["C"]),
     # species declared in non-alphabetical order with asymmetric label counts (involutive maps only, see the open finding)
     "merge_qp": dict(pools={"Q": 2, "P": 1, "R": 3}, inner=({"Q": -1, "P": -1, "R": 1}, ["Q", "P"]), inn=["Q", "P"], out=["R"], involutive=True),
+    # label_variables declares the species in another order than the reaction's stoichiometry lists them (the map refers to the latter)
+    "merge_pq_rev": dict(pools={"P": 1, "Q": 2, "R": 3}, inner=({"Q": -1, "P": -1, "R": 1}, ["Q", "P"]), inn=["Q", "P"], out=["R"], involutive=True),
+    "split_st_rev": dict(pools={"S": 1, "T": 2, "R": 3}, inner=({"R": -1, "T": 1, "S": 1}, ["R"]), inn=["R"], out=["T", "S"], involutive=True),
     "split_ts": dict(pools={"R": 3, "T": 2, "S": 1}, inner=({"R": -1, "T": 1, "S": 1}, ["R"]), inn=["R"], out=["T", "S"], involutive=True),
 }
 
